@@ -44,7 +44,9 @@ def combine_patches(diffs):
                 p.diff = combine_patches(p.diff + d.diff)
         else:
             newdiffs.append(d)
-    return sorted(newdiffs, key=lambda x: x.key)
+    # Sort on key, with insertions before a patch or removal on the same key
+    # (the order required by patch, an addrange inserts before the item at key)
+    return sorted(newdiffs, key=lambda x: (x.key, x.op != DiffOp.ADDRANGE))
 
 
 def adjust_patch_level(target_path, common_path, diff):
